@@ -380,13 +380,19 @@ def tlaps_proof(work, module):
     d = work.sub("tlaps")
     spec_copy(d)
     t0 = time.time()
-    try:
-        p = subprocess.run(["tlapm", "--threads", str(max(2, NCPU // 2)), module], cwd=d, stdout=subprocess.PIPE, stderr=subprocess.STDOUT,
-                           text=True, timeout=900)
-        out = p.stdout
-    except Exception as e:  # missing tool, timeout
-        out = "tlapm did not run: %s" % e
-    m = re.search(r"All (\d+) obligations? proved", out)
+    out, m = "", None
+    # the back-end provers run under per-obligation timeouts: on a loaded machine an obligation can time out, so the
+    # timeouts are stretched, and a second pass (which only re-tries what failed: proved obligations are fingerprinted) stretches them further
+    for stretch in ("3", "12"):
+        try:
+            p = subprocess.run(["tlapm", "--threads", str(max(2, NCPU // 2)), "--stretch", stretch, module], cwd=d, stdout=subprocess.PIPE,
+                               stderr=subprocess.STDOUT, text=True, timeout=1800)
+            out = p.stdout
+        except Exception as e:  # missing tool, timeout
+            out = "tlapm did not run: %s" % e
+        m = re.search(r"All (\d+) obligations? proved", out)
+        if m:
+            break
     r = dict(module=module, obligations_proved=int(m.group(1)) if m else 0, all_proved=bool(m), wall_s=round(time.time() - t0, 1))
     if not m:
         f = re.search(r"(\d+)/(\d+) obligations failed", out)
